@@ -233,6 +233,10 @@ class HavlinClimateNetwork(ClimateNetwork):
         :rtype: 2D array [index, index]
         :return: the lag at maximum cross-correlation matrix.
         """
+        if not hasattr(self, "_correlation_lag"):
+            #  (deleted by clear_cache)
+            self._correlation_lag = self._calculate_correlation_strength(
+                self.data.anomaly(), self._max_delay)[1]
         return self._correlation_lag
 
     #
